@@ -190,7 +190,7 @@ func main() {
 		runCase(replay{Name: "fresh-session-16-senders", Goroutines: 16, PerG: 40, PlainLen: 0})
 		runCase(replay{Name: "both-ends-same-counter-near-wrap", IStart: U64(^uint64(0) - 5), RStart: U64(^uint64(0) - 5), Goroutines: 4, PerG: 4, PlainLen: 1})
 		root := vh.NewRand(int64(uint64(c.Seed)*0xD1342543DE82EF95 + 0x632BE59BD9B4E019))
-		n := c.N(40, 1500)
+		n := c.N(40, 300)
 		for i := 0; i < n; i++ {
 			r := root.Fork()
 			rp := replay{Name: "random", Goroutines: r.Pick(1, 2, 4, 8, 16, 32), PerG: r.Pick(1, 2, 7, 25, 60), PlainLen: r.Pick(0, 1, 16, 1000)}
